@@ -20,10 +20,16 @@
 (***************************************************************************)
 EXTENDS Naturals, Sequences, FiniteSets, TLC
 
-Addr == {"pub4", "priv4", "loop4", "pub6", "ula6"}
-Net  == {"n10", "n127", "nfc", "npub4", "npub6"}
-InNet(a, n) == \/ (a = "priv4" /\ n = "n10") \/ (a = "loop4" /\ n = "n127") \/ (a = "ula6" /\ n = "nfc")
+\* "loop4" is the loopback interface's own address (127.0.0.1), "loopnet4" another address of that interface's subnet
+\* (127.0.0.2 in 127.0.0.1/8).  "n127" is the whole 127.0.0.0/8, "n127h" the host route 127.0.0.1/32 the shipped
+\* configuration lists, "iflo" the loopback interface's subnet as covert_blocklist_public_addrs adds it.
+Addr == {"pub4", "priv4", "loop4", "loopnet4", "pub6", "ula6"}
+Net  == {"n10", "n127", "n127h", "nfc", "npub4", "npub6", "iflo"}
+InNet(a, n) == \/ (a = "priv4" /\ n = "n10") \/ (a \in {"loop4", "loopnet4"} /\ n \in {"n127", "iflo"}) \/ (a = "loop4" /\ n = "n127h")
+               \/ (a = "ula6" /\ n = "nfc")
                \/ (a = "pub4" /\ n = "npub4") \/ (a = "pub6" /\ n = "npub6")
+IfaceNets == {"iflo"}
+IfaceAddr(n) == "loop4"           \* the interface address the subnet was read from
 \* blockedname / blockedlit: a name / an IP literal whose host text a configured domain pattern matches.  pm says how:
 \* "whole" - the pattern describes the entire host;  "part" - it matches a proper part of it only (an unanchored pattern inside a longer
 \* name, a "^prefix" or "suffix$" pattern).  Patterns are SEARCHED in the host (regexp MatchString), so both are matches.
@@ -35,10 +41,15 @@ NoAddr == "none"
 \* input: form of the host part, port class, address the literal denotes (lit/mapped/zone/bare/nobracket) or the name's answers
 Inputs == [form : Forms, port : Ports, addr : Addr, answers : {<<a>> : a \in Addr} \cup {<<a, b>> : a, b \in Addr} \cup {<<>>},
            pm : {"whole", "part"}]
-Policies == [block : SUBSET {"n10", "n127", "nfc"}, allow : {{}, {"npub4"}, {"npub4", "npub6"}, {"n10"}}, patterns : BOOLEAN]
+\* pub: covert_blocklist_public_addrs - every local interface SUBNET joins the blocklist
+Policies == [block : (SUBSET {"n10", "n127", "nfc"}) \cup {{"n127h"}, {"n127h", "n10", "nfc"}},
+             allow : {{}, {"npub4"}, {"npub4", "npub6"}, {"n10"}}, patterns : BOOLEAN, pub : BOOLEAN]
 
 CONSTANT MatchMode      \* "search": a pattern matches a host if it matches any part of it (what the property demands);
                         \* "full": only if it matches the entire host (a broken instance: must violate CheckedIsPermitted)
+CONSTANT PubMode        \* "all": every interface subnet is added (intended); "skip-covered": a subnet whose interface ADDRESS a
+                        \* configured entry already contains is skipped - with 127.0.0.1/32 listed the rest of 127/8 stays
+                        \* dialable (a broken instance: must violate CheckedIsPermitted)
 CONSTANT StoreLiteral   \* TRUE: ingest stores the checked literal (intended); FALSE: it keeps the client's string and the
                         \* dial resolves it again (DNS rebinding window) - used to show the invariants are not vacuous
 
@@ -48,13 +59,19 @@ vars == <<inp, pol, pc, lookups, resolved, result, stored, dialed, obs>>
 IsName(i) == i.form \in {"name", "blockedname"}
 PatternHits(i) == i.form \in Blocked                                   \* by construction of the input
 PatternApplied(i) == i.form \in Blocked /\ (MatchMode = "search" \/ i.pm = "whole")
+\* what the property demands: outside every configured blocklisted subnet - the listed ones and, with pub, the interface subnets
 Permitted(a, p) == IF p.allow # {} THEN \E n \in p.allow : InNet(a, n)
-                   ELSE ~\E n \in p.block : InNet(a, n)
+                   ELSE ~\E n \in p.block \cup (IF p.pub THEN IfaceNets ELSE {}) : InNet(a, n)
+\* what ParseBlocklists builds and isBlocklistedCovertAddr applies
+BuiltBlock(p) == p.block \cup (IF p.pub THEN {n \in IfaceNets : PubMode = "all" \/ ~\E m \in p.block : InNet(IfaceAddr(n), m)} ELSE {})
+Applied(a, p) == IF p.allow # {} THEN \E n \in p.allow : InNet(a, n)
+                 ELSE ~\E n \in BuiltBlock(p) : InNet(a, n)
 
 Init == /\ inp \in Inputs /\ pol \in Policies
         /\ (IsName(inp) \/ inp.answers = <<>>)            \* answers only matter for names
         /\ (inp.pm = "whole" \/ inp.form \in Blocked)     \* pm only matters for hosts a pattern hits
         /\ (inp.form = "blockedlit" => inp.pm = "part")   \* patterns for literals are prefixes of the address text
+        /\ (inp.form = "blockedlit" => inp.addr # "loop4") \* (no second spelling of the interface address itself)
         /\ pc = "parse" /\ lookups = 0 /\ resolved = NoAddr /\ result = NoAddr /\ stored = NoAddr /\ dialed = NoAddr
         /\ obs = [a |-> "Init"]
 
@@ -77,7 +94,7 @@ Resolve == /\ pc = "resolve"
                 ELSE /\ resolved' = inp.addr /\ lookups' = lookups /\ pc' = "subnet" /\ result' = result /\ obs' = [a |-> "resolved"]
            /\ UNCHANGED <<inp, pol, stored, dialed>>
 Subnet == /\ pc = "subnet"
-          /\ IF Permitted(resolved, pol)
+          /\ IF Applied(resolved, pol)
                THEN /\ result' = resolved /\ pc' = "store" /\ obs' = [a |-> "accept"]
                     /\ UNCHANGED <<inp, pol, lookups, resolved, stored, dialed>>
                ELSE Reject("subnet")
